@@ -280,9 +280,13 @@ func c18Case(c *core.Ctx, id string) {
 		var st *pj.Step
 		var res pj.BuildRes
 		if twice {
-			// two runs on one loaded project, as the REPL does
+			// two runs on one loaded project, as the REPL does - half of the time with a Reload() in between, as `dawn watch` does
 			e.S.SetFailing(o.Failing)
-			res = pj.Build(pj.BuildReq{Root: s.Root, Target: target, Always: o.Always, Args: e.P.Args, Twice: true})
+			reload := r.IntN(2) == 0
+			if reload {
+				c.Count("second_runs_after_reload", 1)
+			}
+			res = pj.Build(pj.BuildReq{Root: s.Root, Target: target, Always: o.Always, Args: e.P.Args, Twice: true, Reload: reload})
 			st = &pj.Step{}
 		} else {
 			st, res, _ = e.Build(target, o)
